@@ -158,7 +158,7 @@ def rpAssignAfter : List Tok → Bool
   | _ => false
 
 /-- compileTerm (= compileScope, `::` being outside the alphabet) -/
-def term (d : Nat) (st : St) : R :=
+def term (g : Bool) (d : Nat) (st : St) : R :=
   match st.inp with
   | [] => .ok st
   | t :: r =>
@@ -172,7 +172,9 @@ def term (d : Nat) (st : St) : R :=
     | Tok.var _ | Tok.fn _ =>
       if nextIsName r then .error (.outside 13)   -- juxtaposed names
       else
-        let jump : Option Nat := if st.pre.head? = some Tok.lp then skipDeclGo st.inp 0 else some 0
+        -- skipDecl: only behind `(`; `g` = the code has the `tok->varId() != 0` early return
+        let jump : Option Nat :=
+          if st.pre.head? = some Tok.lp && !(g && (match t with | Tok.var _ => true | _ => false)) then skipDeclGo st.inp 0 else some 0
         match jump with
         | none => .error (.outside 15)
         | some j =>
@@ -200,25 +202,25 @@ def isCallCtx (cpp : Bool) (pre cur : List Tok) : Bool :=
     || (p = Tok.rp && !castBefore cpp pr cur)
 
 /-- the `while (tok)` loop of compilePrecedence2; `inner` = compileExpression -/
-def loop2 (M : Nat) (cpp : Bool) (inner : Nat → St → R) (d : Nat) (st : St) : R :=
+def loop2 (M : Nat) (cpp : Bool) (g : Bool) (inner : Nat → St → R) (d : Nat) (st : St) : R :=
   match st.inp with
   | [] => .ok st
   | t :: rest =>
     let continue_ (r : R) : R :=
       match r with
       | .error e => .error e
-      | .ok st2 => if st2.inp.length < st.inp.length then loop2 M cpp inner d st2 else .error .stuck
+      | .ok st2 => if st2.inp.length < st.inp.length then loop2 M cpp g inner d st2 else .error .stuck
     match t with
     | Tok.op s =>
       if isIncDecStr s && !isPrefixUnary cpp st.pre t rest then
-        continue_ (unopWith M s term d st)
+        continue_ (unopWith M s (term g) d st)
       else if s = ['.','.','.'] then .error (.outside 20)
       else if s = ['.'] && rest.head? != some (Tok.op ['*']) then
         if rest.head? = some (Tok.op ['.']) then .error (.outside 21)
         else if rest.head? = some (Tok.op ['~']) then .error (.outside 22)
         else if (match st.pre.head? with | some p => p = Tok.op ['{'] || p = Tok.op [','] | none => false) then
-          continue_ (unopWith M s term d st)
-        else continue_ (binopWith M s term d st)
+          continue_ (unopWith M s (term g) d st)
+        else continue_ (binopWith M s (term g) d st)
       else if s = ['{'] then .error (.outside 23)
       else .ok st
     | Tok.lb =>
@@ -256,30 +258,30 @@ def loop2 (M : Nat) (cpp : Bool) (inner : Nat → St → R) (d : Nat) (st : St) 
 termination_by st.inp.length
 
 /-- compilePrecedence2 -/
-def p2 (M : Nat) (cpp : Bool) (inner : Nat → St → R) (d : Nat) (st : St) : R :=
-  match term d st with
+def p2 (M : Nat) (cpp : Bool) (g : Bool) (inner : Nat → St → R) (d : Nat) (st : St) : R :=
+  match term g d st with
   | .error e => .error e
-  | .ok st1 => if st1.inp.length ≤ st.inp.length then loop2 M cpp inner d st1 else .error .stuck
+  | .ok st1 => if st1.inp.length ≤ st.inp.length then loop2 M cpp g inner d st1 else .error .stuck
 
 def isPrefixOpStr (s : Str) : Bool :=
   s = ['+'] || s = ['-'] || s = ['!'] || s = ['~'] || s = ['*'] || s = ['&'] || isIncDecStr s
 
 /-- compilePrecedence3.  `entry = true`: the whole function; `false`: its `while` loop. -/
-def p3 (M : Nat) (cpp : Bool) (inner : Nat → St → R) (entry : Bool) (d : Nat) (st : St) : R :=
+def p3 (M : Nat) (cpp : Bool) (g : Bool) (inner : Nat → St → R) (entry : Bool) (d : Nat) (st : St) : R :=
   if entry then
-    match p2 M cpp inner d st with
+    match p2 M cpp g inner d st with
     | .error e => .error e
-    | .ok st1 => if st1.inp.length ≤ st.inp.length then p3 M cpp inner false d st1 else .error .stuck
+    | .ok st1 => if st1.inp.length ≤ st.inp.length then p3 M cpp g inner false d st1 else .error .stuck
   else
     match st.inp with
     | [] => .ok st
     | t :: rest =>
       let self : Nat → St → R := fun d' st' =>
-        if st'.inp.length < st.inp.length then p3 M cpp inner true d' st' else .error .stuck
+        if st'.inp.length < st.inp.length then p3 M cpp g inner true d' st' else .error .stuck
       let continue_ (r : R) : R :=
         match r with
         | .error e => .error e
-        | .ok st2 => if st2.inp.length < st.inp.length then p3 M cpp inner false d st2 else .error .stuck
+        | .ok st2 => if st2.inp.length < st.inp.length then p3 M cpp g inner false d st2 else .error .stuck
       match t with
       | Tok.op s =>
         if isPrefixOpStr s && isPrefixUnary cpp st.pre t rest then
@@ -320,7 +322,7 @@ def expr (L : Ladder) (cpp : Bool) (d : Nat) (st : St) : R :=
     | [] => .ok st
     | _ :: _ =>
       ladder L.maxDepth cpp
-        (p3 L.maxDepth cpp (fun d' st' => if st'.inp.length < st.inp.length then expr L cpp d' st' else .error .stuck) true)
+        (p3 L.maxDepth cpp L.declVarGuard (fun d' st' => if st'.inp.length < st.inp.length then expr L cpp d' st' else .error .stuck) true)
         L.levels d st
 termination_by st.inp.length
 
@@ -463,5 +465,8 @@ def minParen (L : Ladder) : List Level → PExpr → PExpr
   | _, e => e
 
 end PExpr
+
+/-- witness of finding F7a: `( a * b = c )`, a tree of the grammar (C++: `(a * b) = c`) that violates `declOK` -/
+def declWitness : PExpr := .paren (.bin ['='] (.bin ['*'] (.var ['a']) (.var ['b'])) (.var ['c']))
 
 end Cppcheck.AstLadder
